@@ -270,6 +270,21 @@ def real_runs(rep, rng, tier):
                 want_idx = np.where((tt >= lo) & (tt <= hi))[0]
                 if not np.array_equal(dyn.time_slice(lo, hi), want_idx):
                     rep.violation("DynamicsData.time_slice does not select the steps inside the time window", case)
+                # derived per-step quantities: the documented time-weighted mean voltage over a window, the step closest to a time
+                dts_ = np.array([st_[1] for st_ in states])
+                V_ = mu_want[0] - mu_want[1]
+                for w0, w1 in ((-np.inf, np.inf), (lo, hi), (float(tt[0]), float(tt[0])), (float(tt[-1]), np.inf)):
+                    sel = (tt >= w0) & (tt <= w1)
+                    want_mv = float(np.sum(V_[sel] * dts_[sel]) / np.sum(dts_[sel]))
+                    got_mv = float(dyn.mean_voltage(tmin=w0, tmax=w1))
+                    if abs(got_mv - want_mv) > 1e-12 * (abs(want_mv) + 1e-300) + 1e-15:
+                        rep.violation("DynamicsData.mean_voltage is not sum(V dt) / sum(dt) over the steps inside the window",
+                                      {**case, "window": [w0, w1], "got": got_mv, "expected": want_mv})
+                        break
+                for tq in (float(tt[0]) - 1.0, float(tt[0]), 0.5 * float(tt[1] + tt[2]) + 1e-9 * float(tt[2] - tt[1]), float(tt[-1]), float(tt[-1]) + 7.0):
+                    if int(dyn.closest_time(tq)) != int(np.argmin(np.abs(tt - tq))):
+                        rep.violation("DynamicsData.closest_time is not the step whose time is closest", {**case, "time": tq})
+                        break
         rep.count(1)
         rep.nontrivial(("real", k, adaptive))
     # a run in which updates are refused and retried with smaller steps: the time step RECORDED for a step (per-step record,
